@@ -269,7 +269,7 @@ class DictGen:
             # values a tiny universe never shows: floats next to equal ints, signed zero, a big int, non-ASCII and long strings,
             # a string that looks like a dotted key, nested lists
             v = r.choice(WIDE_VALUES)
-            if isinstance(v, list) and for_key not in SCALAR_KEYS:
+            if isinstance(v, list) and (for_key not in SCALAR_KEYS or for_key in self.no_list_keys):
                 v = 1.5  # (containers only where the generator's own path arithmetic expects a leaf)
             return copy.deepcopy(v)
         return r.choice(SCALARS)
